@@ -188,7 +188,10 @@ EvalCall(f, vs, p) ==
                                ELSE VUnspec
               [] OTHER -> VUnspec
        [] f = "substr" /\ n = 3 ->
-            IF a1.t = "s" /\ a2.t = "i" /\ a3.t = "i" /\ a2.n = 0 /\ a3.n >= 0
+            \* "from start position to end position": value[start:end]; positions outside the value are unmodelled
+            IF a1.t = "s" /\ a2.t = "i" /\ a3.t = "i" /\ a2.n >= 0 /\ a2.n <= a3.n /\ a3.n <= Len(a1.s)
+            THEN VStr(SubSeq(a1.s, a2.n + 1, a3.n))
+            ELSE IF a1.t = "s" /\ a2.t = "i" /\ a3.t = "i" /\ a2.n = 0 /\ a3.n >= 0
             THEN VStr(SubSeq(a1.s, 1, Min2(a3.n, Len(a1.s)))) ELSE VUnspec
        [] f = "split" /\ n = 2 ->
             IF a1.t = "s" /\ a2.t = "s" /\ a2.s # <<>>
